@@ -294,9 +294,9 @@ func (x *c07x) heartbeatFn() {
 	}
 	info := f.Info()
 	g := f.Graph()
-	didRevoke, revoked, stopHb := localObj(f, "didRevoke"), localObj(f, "revoked"), localObj(f, "stopHeartbeating")
-	if didRevoke == nil || revoked == nil || stopHb == nil {
-		c.Undecided(rule, f.Key+"#locals", f.Pos(), m, "didRevoke / revoked / stopHeartbeating not found")
+	didRevoke, revoked := localObj(f, "didRevoke"), localObj(f, "revoked")
+	if didRevoke == nil || revoked == nil {
+		c.Undecided(rule, f.Key+"#locals", f.Pos(), m, "didRevoke / revoked not found")
 		return
 	}
 	n := 0
@@ -373,29 +373,42 @@ func (x *c07x) heartbeatFn() {
 	}
 	l, _ := g.LocOf(hbCall)
 	facts := g.FactsAt(l)
-	c.Check(factMatches(facts, func(ft Fact) bool { return ft.Tag == nil && !ft.Val && c04obj(info, ft.Cond) == stopHb }), rule8, f.Key+"#hbfn-guard", hbCall.Pos(), m, "heartbeats are sent only while !stopHeartbeating",
-		"hbfn() is not guarded by !stopHeartbeating: after a response removed partitions (nowAssigned already shrunk, prerevoking not yet set) the next heartbeat of the old session is a full request without them - the coordinator frees them before OnPartitionsRevoked ran")
-	okStop := false
-	for _, d := range c04defs(f, stopHb) {
-		if d.rhs == nil {
-			continue
+	// a flag set to true exactly when the closure reported errReassigned848
+	setOnReassign := func(o types.Object) bool {
+		if v, ok := o.(*types.Var); !ok || v.IsField() {
+			return false
 		}
-		if v, isC := constBool(info, d.rhs); isC && v {
-			sl, _ := g.LocOf(d.stmt)
+		for _, d := range c04defs(f, o) {
+			if d.rhs == nil {
+				continue
+			}
+			as, isAs := d.stmt.(*ast.AssignStmt)
+			if v, isC := constBool(info, d.rhs); !isC || !v || !isAs || as.Tok != token.ASSIGN {
+				continue
+			}
+			sl, okl := g.LocOf(d.stmt)
+			if !okl {
+				continue
+			}
 			for _, ft := range g.FactsAt(sl) {
-				if o := c04obj(info, ft.Cond); o != nil && ft.Val && ft.Tag == nil {
-					if dd := c04single(f, o); dd != nil && nosp(exprStr(dd.rhs)) == "errors.Is(err,errReassigned848)" {
-						okStop = true
+				if fo := c04obj(info, ft.Cond); fo != nil && ft.Val && ft.Tag == nil {
+					if dd := c04single(f, fo); dd != nil && nosp(exprStr(dd.rhs)) == "errors.Is(err,errReassigned848)" {
+						return true
 					}
 				}
-			}
-			// unconditional within the arm
-			if as, ok := d.stmt.(*ast.AssignStmt); !ok || as.Tok != token.ASSIGN {
-				okStop = false
+				if ft.Val && ft.Tag == nil && nosp(exprStr(ft.Cond)) == "errors.Is(err,errReassigned848)" {
+					return true
+				}
 			}
 		}
+		return false
 	}
-	c.Check(okStop, rule8, f.Key+"#stops-on-reassign", f.Pos(), m, "errReassigned848 stops further heartbeats of the session", "stopHeartbeating is not set when the closure reports errReassigned848: the old session keeps heartbeating with the already-shrunk assignment while the revoke callback has not run")
+	guarded := factMatches(facts, func(ft Fact) bool {
+		o := c04obj(info, ft.Cond)
+		return ft.Tag == nil && !ft.Val && o != nil && setOnReassign(o)
+	})
+	c.Check(guarded, rule8, f.Key+"#no-heartbeat-after-reassign", hbCall.Pos(), m, "hbfn() runs only while a stop flag, set when the closure reports errReassigned848, is false",
+		"hbfn() is reachable under ["+c04factsStr(facts)+"], with no stop flag that is set when the closure reports errReassigned848: after a response removed partitions (nowAssigned already shrunk, prerevoking not yet set) the old session's timer heartbeat is a full request without them - the coordinator takes it as the revocation ack and assigns them to another member before this member's OnPartitionsRevoked ran")
 	// a forced rejoin counts as a rebalance
 	okRejoin := false
 	rj := fieldMust(c, m, "groupConsumer", "rejoinCh")
